@@ -33,6 +33,16 @@ def _pool(rng):
             small = ("S", G.verts_to_jordan(G.ccw([(c[0] + F(dx, 64), c[1] + F(dy, 64)) for dx, dy in ((1, 0), (0, 1), (-1, 0), (0, -1))])))
             pool.append(small)
             pool.append(("S", U.reverse_jordan(small[1])))
+    # unbounded Connected containers (the plane minus two or more polygons) with bounded contents clear of the holes
+    for _ in range(2):
+        u = G.unbounded_connected(rng, R=rng.choice([8, 12]))
+        if u[0] != "C":
+            continue
+        pool.append(u)
+        pts = [p for p in O.slab_samples(O.shape_jordans(u)) if O.region(u, p) == "in"]
+        for c in rng.sample(pts, min(2, len(pts))):
+            d = F(1, 32)
+            pool.append(("S", G.verts_to_jordan(G.ccw([(c[0] + d, c[1]), (c[0], c[1] + d), (c[0] - d, c[1]), (c[0], c[1] - d)]))))
     L = G.verts_to_jordan([(F(0), F(0)), (F(4), F(0)), (F(4), F(4)), (F(2), F(4)), (F(2), F(2)), (F(0), F(2))])
     sq = G.verts_to_jordan(G.ccw([(F(1, 2), F(5, 2)), (F(3, 2), F(5, 2)), (F(3, 2), F(7, 2)), (F(1, 2), F(7, 2))]))
     off = (F(rng.randint(-20, 20)), F(rng.randint(-20, 20)))
@@ -108,7 +118,8 @@ def cases(ctx):
         pool = _pool(rng)
         pairs = [(a, b) for a in pool for b in pool]
         rng.shuffle(pairs)
-        for a, b in pairs[: ctx.n(60, 400)]:
+        forced = [(a, b) for a in pool for b in pool if a[0] == "C" and b[0] == "S" and O.moment_shape(a, 0, 0) < 0 < O.moment_shape(b, 0, 0)]
+        for a, b in forced[:8] + pairs[: ctx.n(60, 400)]:
             if a is b or _compatible(a, b):
                 yield {"a": a, "b": b, "same": a is b}
         for s in pool[2:8]:
